@@ -284,6 +284,16 @@ func runC20(c *Ctx) {
 										if name, base, isF := core.IsLoadOfField(w); isF && name == "code" && len(lf.Params) > 3 && base == ssa.Value(lf.Params[3]) {
 											okCode = true
 										}
+										// or through the accessor that returns that field
+										if acc, isC := w.(*ssa.Call); isC && len(lf.Params) > 3 && len(acc.Call.Args) == 1 && acc.Call.Args[0] == ssa.Value(lf.Params[3]) {
+											if g := acc.Call.StaticCallee(); g != nil && len(g.Blocks) == 1 && len(g.Params) == 1 {
+												for _, ret := range core.Returns(g) {
+													if name, base, isF := core.IsLoadOfField(ret.Results[0]); isF && name == "code" && base == ssa.Value(g.Params[0]) {
+														okCode = true
+													}
+												}
+											}
+										}
 									}
 								}
 							}
@@ -353,7 +363,40 @@ func runC20(c *Ctx) {
 					if call, ok := st.Val.(*ssa.Call); ok && strings.HasPrefix(core.CalleeName(&call.Call), "cmp.Or") {
 						okS = true
 					}
-					if k, isK := core.ConstInt(st.Val); isK && k == 200 {
+					// explicit form: per arriving value, 200 exactly when the recorded
+					// code is 0 and the recorded code otherwise
+					codeIsZero := func(facts []core.Fact) (zero, known bool) {
+						for _, g := range facts {
+							cond, truth := core.StripNot(g.Cond, g.Truth)
+							bo, ok := cond.(*ssa.BinOp)
+							if !ok || (bo.Op != token.EQL && bo.Op != token.NEQ) {
+								continue
+							}
+							x, y := bo.X, bo.Y
+							if k, isK := core.ConstInt(x); isK && k == 0 {
+								x, y = y, x
+							}
+							k, isK := core.ConstInt(y)
+							n, _, isF := core.IsLoadOfField(x)
+							if !isK || k != 0 || !isF || n != "code" {
+								continue
+							}
+							return (bo.Op == token.EQL) == truth, true
+						}
+						return false, false
+					}
+					leaves := core.Facts(sis).Leaves(st.Val, st)
+					good := len(leaves) > 0
+					for _, lf := range leaves {
+						zero, known := codeIsZero(lf.Facts)
+						if k, isK := core.ConstInt(lf.V); isK {
+							good = good && k == 200 && known && zero
+							continue
+						}
+						n, _, isF := core.IsLoadOfField(lf.V)
+						good = good && isF && n == "code" && known && !zero
+					}
+					if good {
 						okS = true
 					}
 				}
@@ -389,6 +432,11 @@ func runC20(c *Ctx) {
 	// attributes
 	if attrObj != nil {
 		helper := c.P.Func("netutil/httputil", "LogMiddleware.attrsSlicePtr")
+		if helper == nil || c.P.Absorbed[helper] {
+			// no separate helper (or one merged into the closure by the
+			// normalisation): the attributes are filled in the closure itself
+			helper = cl
+		}
 		if helper != nil {
 			want := map[string]string{"host": "Host", "method": "Method", "raddr": "RemoteAddr", "request_uri": "RequestURI"}
 			slots := map[int64]bool{}
@@ -429,7 +477,7 @@ func runC20(c *Ctx) {
 			}
 			// the helper is called with this request
 			for _, ci := range core.AllCalls(cl) {
-				if call, ok := ci.(*ssa.Call); ok && call.Call.StaticCallee() == helper {
+				if call, ok := ci.(*ssa.Call); ok && helper != cl && call.Call.StaticCallee() == helper {
 					c.check(call.Call.Args[1] == ssa.Value(cl.Params[1]), "C20.attrs", cl, "attributes are taken from this invocation's request", call, "r of the closure")
 				}
 			}
